@@ -43,7 +43,7 @@ func (g *sm4GcmAsm) Open(dst, nonce, ciphertext, additionalData []byte) ([]byte,
 	ret := ensureCapacity(dst, len(ciphertext)-g.tagSize)
 
 	var tagMatch int
-	if ret != nil {
+	if len(ret) > len(dst) {
 		tagMatch = openAsm(&g.roundKeys[0], g.tagSize,&ret[len(dst)], nonce, ciphertext, additionalData, &temp[0])
 	}else{
 		tagMatch = openAsm(&g.roundKeys[0], g.tagSize,nil, nonce, ciphertext, additionalData, &temp[0])
@@ -59,7 +59,7 @@ func ensureCapacity(array []byte, asked int) (head []byte) {
 	res := needExpand(array, asked)
 	arrayLen := len(array)
 	if res == 0{
-		head = array
+		head = array[:arrayLen+asked]
 	}else{
 		head = make([]byte,arrayLen+asked)
 		if arrayLen!=0 {
